@@ -1276,6 +1276,30 @@ func (schema *Schema) visitJSON(settings *schemaValidationSettings, value any) (
 	}
 }
 
+// numbersAsFloat64 returns value with every json.Number inside arrays and objects replaced by the
+// float64 it denotes (a number that does not fit stays as it is and equals nothing).
+func numbersAsFloat64(value any) any {
+	switch v := value.(type) {
+	case json.Number:
+		if f, err := v.Float64(); err == nil {
+			return f
+		}
+	case []any:
+		out := make([]any, len(v))
+		for i, item := range v {
+			out[i] = numbersAsFloat64(item)
+		}
+		return out
+	case map[string]any:
+		out := make(map[string]any, len(v))
+		for k, item := range v {
+			out[k] = numbersAsFloat64(item)
+		}
+		return out
+	}
+	return value
+}
+
 func (schema *Schema) visitEnumOperation(settings *schemaValidationSettings, value any) (err error) {
 	if enum := schema.Enum; len(enum) != 0 {
 		for _, v := range enum {
@@ -1295,6 +1319,11 @@ func (schema *Schema) visitEnumOperation(settings *schemaValidationSettings, val
 			case int32:
 				// parameters of format int32 are decoded to int32
 				if v == float64(c) {
+					return
+				}
+			case []any, map[string]any:
+				// an array or object decoded with UseNumber holds json.Number where the schema's member holds float64
+				if reflect.DeepEqual(v, numbersAsFloat64(c)) {
 					return
 				}
 			default:
